@@ -65,11 +65,16 @@ func inventorClass(c *Ctx, fi *FuncInfo, call *ast.CallExpr) string {
 	walk(lit.Body.List, "")
 	e.names = saved
 	got := strings.Join(parts, " ; ")
-	switch got {
-	case `→((fp0=="err")||recv.nameInFileScope(fp0))`:
+	if got == `→((fp0=="err")||recv.nameInFileScope(fp0))` || got == `→(recv.nameInFileScope(fp0)||(fp0=="err"))` {
 		return "import"
-	case `if[(recv.nameInFileScope(fp0)||func{…}(fp0))]→true ; if[(len(m1)>0)]if[(m1[(len(m1)-1)].LookupParent(fp0,token.NoPos)#1!=nil)]→true ; →false`:
+	}
+	// semantic classification: which tests can make the predicate true?
+	makers := truthMakers(fi, lit)
+	if makers["fileScope"] && makers["chosenNames"] && makers["innerScope"] && len(makers) == 3 {
 		return "copied-local"
+	}
+	if makers["fileScope"] && makers["errLiteral"] && len(makers) == 2 {
+		return "import"
 	}
 	return "?" + got
 }
@@ -209,28 +214,80 @@ func init() {
 				r.Check(seen[t] > 0, "table-has-writer:"+t, 0, "%d store(s) into %s found", seen[t], t)
 			}
 			r.Floor("naming sites", total, 8)
-			// the rename decision of copied locals
+			// the rename decision of copied locals: at the point where a new name is chosen, the dominating
+			// conditions are only "declared inside the copied node", object/scope sanity tests, and
+			// "collides with the file scope OR with an already chosen name"
 			rp := r.Need(c.Fn(c.W, "gen.rewritePkgRefs"), "gen.rewritePkgRefs")
 			if rp != nil {
-				e := newEmitter(c, rp)
-				found := false
-				rp.inspect(rp.Decl.Body, func(nd ast.Node) bool {
-					is, ok := nd.(*ast.IfStmt)
-					if !ok || is.Init == nil {
-						return true
+				n := 0
+				for _, dc := range rp.callsTo(pathW + ".disambiguate") {
+					if inventorClass(c, rp, dc) != "copied-local" {
+						continue
 					}
-					s := e.sym(is.Cond)
-					if !strings.Contains(s, "nameInFileScope") {
-						return true
+					n++
+					name := dc.Args[0]
+					gs, undo := rp.expandGuards(rp.Guards(dc))
+					hasOr, unknown := false, []string{}
+					for _, g := range gs {
+						if g.Kind != "bool" {
+							continue
+						}
+						ex := ast.Unparen(g.Expr)
+						// the collision disjunction
+						if be, ok := ex.(*ast.BinaryExpr); ok && be.Op == token.LOR && !g.Neg {
+							var ops []ast.Expr
+							var split func(e ast.Expr)
+							split = func(e ast.Expr) {
+								e = ast.Unparen(e)
+								if b, ok := e.(*ast.BinaryExpr); ok && b.Op == token.LOR {
+									split(b.X)
+									split(b.Y)
+									return
+								}
+								ops = append(ops, e)
+							}
+							split(be)
+							fileScope, chosen := false, false
+							for _, op := range ops {
+								cl, ok := op.(*ast.CallExpr)
+								if !ok || len(cl.Args) != 1 || !rp.sameExpr(cl.Args[0], name) {
+									continue
+								}
+								if rp.calleeName(cl) == pathW+".gen.nameInFileScope" {
+									fileScope = true
+								} else if scansStringMap(rp, cl) {
+									chosen = true
+								}
+							}
+							if fileScope && chosen && len(ops) == 2 {
+								hasOr = true
+								continue
+							}
+						}
+						// sanity / locality tests
+						if _, _, ok := rp.nilTest(g); ok {
+							continue
+						}
+						if be, ok := ex.(*ast.BinaryExpr); ok {
+							tx := rp.Info.TypeOf(be.X)
+							if tx != nil {
+								ts := types.TypeString(tx, nil)
+								if (ts == "go/token.Pos" && g.Neg && (be.Op == token.LSS || be.Op == token.LEQ)) || (ts == "*go/types.Scope" && g.Neg && be.Op == token.EQL) {
+									continue
+								}
+							}
+						}
+						if v := rp.varOf(ex); v != nil && types.TypeString(v.Type(), nil) == "bool" {
+							continue // comma-ok flags of assertions / map lookups
+						}
+						unknown = append(unknown, exprShort(g.Expr))
 					}
-					found = true
-					okC := s == "(((m1.Pos()<$1.Pos())||($1.End()<=m1.Pos()))||!(recv.nameInFileScope(m1.Name())||func{…}(m1.Name())))" ||
-						regexpMatch(`^\(\(\((.+)\.Pos\(\)<\$1\.Pos\(\)\)\|\|\(\$1\.End\(\)<=(.+)\.Pos\(\)\)\)\|\|!\(recv\.nameInFileScope\((.+)\.Name\(\)\)\|\|func\{…\}\((.+)\.Name\(\)\)\)\)$`, s)
-					r.Check(okC, "copied-local/rename-decision", is.Pos(), "a local is left alone only if declared outside the copied node, or if it collides neither with the file scope nor with an already chosen name — got %s", s)
-					return true
-				})
-				r.Check(found, "copied-local/rename-decision-present", rp.Decl.Pos(), "rename decision found")
-				// inNewNames scans every chosen name
+					undo()
+					r.Check(hasOr, "copied-local/rename-decision", dc.Pos(), "a local is renamed exactly when it collides with the file scope OR with an already chosen name")
+					r.Check(len(unknown) == 0, "copied-local/rename-decision-not-narrowed", dc.Pos(), "no further condition decides whether a colliding local is renamed (%v)", unknown)
+				}
+				r.Check(n == 1, "copied-local/rename-decision-present", rp.Decl.Pos(), "rename decision found (%d)", n)
+				// the chosen-names predicate scans every chosen name
 				okIn := false
 				rp.inspect(rp.Decl.Body, func(nd ast.Node) bool {
 					rs, ok := nd.(*ast.RangeStmt)
@@ -455,4 +512,133 @@ func (fi *FuncInfo) loopOnlyReturnsTrueOnEq(rs *ast.RangeStmt) bool {
 	}
 	p, _ := fi.Info.Defs[lit.Type.Params.List[0].Names[0]].(*types.Var)
 	return fi.loopOnlyReturnsTrueOnEqParam(rs, p)
+}
+
+// scansStringMap reports whether call invokes a local closure whose body
+// ranges over a map with string values (the chosen-names table).
+func scansStringMap(fi *FuncInfo, call *ast.CallExpr) bool {
+	v := fi.varOf(call.Fun)
+	if v == nil {
+		return false
+	}
+	sd := fi.singleDef(v)
+	if sd == nil {
+		return false
+	}
+	lit, ok := ast.Unparen(sd.rhs).(*ast.FuncLit)
+	if !ok {
+		return false
+	}
+	found := false
+	ast.Inspect(lit.Body, func(n ast.Node) bool {
+		if rs, ok := n.(*ast.RangeStmt); ok {
+			if mt, ok := fi.Info.TypeOf(rs.X).Underlying().(*types.Map); ok && types.TypeString(mt.Elem(), nil) == "string" {
+				found = true
+			}
+		}
+		return true
+	})
+	return found
+}
+
+// truthMakers lists the kinds of test that can make a collision-predicate
+// closure return true: "fileScope" (gen.nameInFileScope(p)), "chosenNames" (a
+// closure scanning a string-valued map, applied to p), "innerScope"
+// (Scope.LookupParent(p) != nil), "errLiteral" (p == "err"). A test counts
+// only where its truth leads to `return true` (disjunct of an if whose body
+// returns true, or disjunct of a returned expression). Anything else that can
+// make it true is reported as "other:<expr>".
+func truthMakers(fi *FuncInfo, lit *ast.FuncLit) map[string]bool {
+	out := map[string]bool{}
+	if len(lit.Type.Params.List) != 1 || len(lit.Type.Params.List[0].Names) != 1 {
+		return out
+	}
+	param, _ := fi.Info.Defs[lit.Type.Params.List[0].Names[0]].(*types.Var)
+	isParam := func(e ast.Expr) bool { return fi.varOf(e) == param || fi.varOf(fi.deref(e)) == param }
+	var classify func(e ast.Expr, depth int)
+	classify = func(e ast.Expr, depth int) {
+		e = ast.Unparen(e)
+		if depth > 4 {
+			out["other:deep"] = true
+			return
+		}
+		switch x := e.(type) {
+		case *ast.BinaryExpr:
+			switch x.Op {
+			case token.LOR:
+				classify(x.X, depth)
+				classify(x.Y, depth)
+				return
+			case token.EQL:
+				if isParam(x.X) && types.ExprString(x.Y) == `"err"` {
+					out["errLiteral"] = true
+					return
+				}
+			case token.NEQ:
+				// obj != nil where obj comes from LookupParent(p)
+				if fi.isNilIdent(x.Y) {
+					if d := fi.defOf(x.X); d != nil {
+						if lp := fi.isCall(d.rhs, "go/types.Scope.LookupParent"); lp != nil && isParam(lp.Args[0]) {
+							out["innerScope"] = true
+							return
+						}
+					}
+				}
+			}
+		case *ast.CallExpr:
+			if len(x.Args) == 1 && isParam(x.Args[0]) {
+				if fi.calleeName(x) == pathW+".gen.nameInFileScope" {
+					out["fileScope"] = true
+					return
+				}
+				if scansStringMap(fi, x) {
+					out["chosenNames"] = true
+					return
+				}
+				// a hoisted closure combining tests
+				if body, undo := fi.predicateBody(x); body != nil {
+					classify(body, depth+1)
+					undo()
+					return
+				}
+			}
+		case *ast.Ident:
+			if x.Name == "false" {
+				return
+			}
+		}
+		out["other:"+exprShort(e)] = true
+	}
+	var walk func(list []ast.Stmt)
+	walk = func(list []ast.Stmt) {
+		for _, s := range list {
+			switch s := s.(type) {
+			case *ast.IfStmt:
+				returnsTrue := len(s.Body.List) >= 1
+				if returnsTrue {
+					ret, ok := s.Body.List[len(s.Body.List)-1].(*ast.ReturnStmt)
+					returnsTrue = ok && len(ret.Results) == 1 && types.ExprString(ret.Results[0]) == "true"
+				}
+				if returnsTrue && len(s.Body.List) == 1 {
+					classify(s.Cond, 0)
+				} else {
+					// a guard that merely scopes further tests (e.g. len(stack) > 0): look inside
+					walk(s.Body.List)
+				}
+				if eb, ok := s.Else.(*ast.BlockStmt); ok {
+					walk(eb.List)
+				}
+			case *ast.ReturnStmt:
+				if len(s.Results) == 1 {
+					classify(s.Results[0], 0)
+				}
+			case *ast.AssignStmt, *ast.DeclStmt:
+			default:
+				out["other:stmt"] = true
+			}
+		}
+	}
+	walk(lit.Body.List)
+	delete(out, "other:true")
+	return out
 }
